@@ -4,7 +4,7 @@
    C17 (the seeded Louvain runs of the reproducibility check). *)
 From Coq Require Import String List Bool ZArith NArith Arith QArith.
 From GV Require Import Base.Outcome Base.AMap Model.GState Model.Creation Model.Query Model.Derived
-     Model.Partition Model.Louvain Spec.AGraph Spec.PartitionDef Proofs.PartitionStateOk Proofs.AggregationOk Run.Obs.
+     Model.Partition Model.Louvain Spec.AGraph Spec.PartitionDef Proofs.PartitionStateOk Proofs.AggregationOk Proofs.MoveGainOk Run.Obs.
 Import ListNotations.
 Open Scope Z_scope.
 
@@ -131,7 +131,8 @@ Definition agg_link_flag (g : zstate) (weighted : bool) (gamma : Q) (perms : lis
    the first local-moving phase, in the form the move-gain theorems use them:
    L1 node2com u = c  <->  u in inner_partition[c];  L2 _partition[c] = inner_partition[c] (the
    nodes' attribute sets are singletons at this level);  L3 Stot[c] = K_c (directed: Stot_in[c] =
-   Kin_c, Stot_out[c] = Kout_c) computed directly on the working graph's edge multiset *)
+   Kin_c, Stot_out[c] = Kout_c) computed directly on the working graph's edge multiset; and the
+   neighbour-community weights of every node equal [between] (the quantity of C13_move_gain_newman) *)
 Definition same_set (a b : list nat) : bool :=
   forallb (fun x => mem Nat.eqb x b) a && forallb (fun x => mem Nat.eqb x a) b.
 
@@ -166,7 +167,24 @@ Definition bookkeeping_flag (g : zstate) (weighted : bool) (gamma : Q) (perms : 
         (if directed (sp gu)
          then zip_all (fun st c => Qeq_bool st (Kin_of Nat.eqb es c)) (stot_in (ls_deg s)) inner &&
               zip_all (fun st c => Qeq_bool st (Kout_of Nat.eqb es c)) (stot_out (ls_deg s)) inner
-         else zip_all (fun st c => Qeq_bool st (K_of Nat.eqb es c)) (stot (ls_deg s)) inner)
+         else zip_all (fun st c => Qeq_bool st (K_of Nat.eqb es c)) (stot (ls_deg s)) inner) &&
+        (* the per-community weights of every node are the weights [between] it and the community *)
+        forallb (fun u =>
+                   match (do w0 <- get_neighbor_weights gu u (successors gu) (ls_node2com s);
+                          if directed (sp gu)
+                          then add_predecessor_weights gu u (predecessors gu) (ls_node2com s) w0
+                          else Ok w0) with
+                   | Ok w2c =>
+                     forallb (fun cw => match nth_error inner (fst cw) with
+                                        | Some p => Qeq_bool (snd cw) (between Nat.eqb es u (set_remove u p))
+                                        | None => false
+                                        end) w2c &&
+                     forallb (fun ip => match lookup Nat.eqb (snd ip) w2c with
+                                        | Some _ => true
+                                        | None => Qeq_bool 0 (between Nat.eqb es u (set_remove u (fst ip)))
+                                        end) (enumerate_from 0 inner)
+                   | _ => false
+                   end) (map nname (get_all_nodes gu))
       | _ => false
       end
     | _, _ => true
